@@ -95,7 +95,7 @@ def _locate(fullname: str):
 # AST passes
 # ----------------------------------------------------------------------------------------------
 
-_NO_REDIRECT_FUNCS = {"isinstance", "issubclass", "cast", "TypeVar", "NewType", "field", "Union", "Optional"}
+_NO_REDIRECT_FUNCS = {"isinstance", "issubclass", "cast", "TypeVar", "NewType", "Union", "Optional"}
 
 
 class CallRedirect(ast.NodeTransformer):
@@ -110,6 +110,10 @@ class CallRedirect(ast.NodeTransformer):
             for i, a in enumerate(node.args):
                 if isinstance(a, ast.Name) and a.id in ("int", "float"):
                     node.args[i] = ast.copy_location(ast.Name(id=f"__vc_{a.id}__", ctx=ast.Load()), a)
+            for kw in node.keywords:
+                # attrs: field(converter=float)
+                if kw.arg == "converter" and isinstance(kw.value, ast.Name) and kw.value.id in ("int", "float"):
+                    kw.value = ast.copy_location(ast.Name(id=f"__vc_{kw.value.id}__", ctx=ast.Load()), kw.value)
         return node
 
     # leave annotations alone
